@@ -3,6 +3,7 @@ package checks
 import (
 	"bytes"
 	"fmt"
+	"regexp"
 	"strings"
 
 	"github.com/amzn/ion-go/ion"
@@ -114,6 +115,16 @@ var c10Events = []c10Event{
 		s.Sym.Quoted = true
 		return []*rm.Value{c10LST(s, "aq")}
 	}},
+}
+
+var c10Digits = regexp.MustCompile(`[0-9]+`)
+
+// c10DiffKey: the first difference with its position and numbers blanked ("annotations: $N vs ”").
+func c10DiffKey(df string) string {
+	if i := strings.Index(df, ": "); i >= 0 {
+		df = df[i+2:]
+	}
+	return c10Digits.ReplaceAllString(clipStr(df, 60), "N")
 }
 
 type c10Cat struct {
@@ -285,7 +296,8 @@ func c10Body(c *mc.Ctx) {
 		return
 	}
 	if df := rm.DiffStreams(want, got); df != "" {
-		c.Fail("value-mismatch", diffKey(df), "reference %s, reader %s: %s", rm.StreamString(want), rm.StreamString(got), df)
+		// the key says WHAT differs (digits blanked), so that shrinking cannot slide from one defect into another
+		c.Fail("value-mismatch", c10DiffKey(df), "reference %s, reader %s: %s", rm.StreamString(want), rm.StreamString(got), df)
 		return
 	}
 	for i := range got {
